@@ -27,6 +27,8 @@ def generate(rseed, tier='quick'):
   if r.random() < 0.7:
     mdesc = {'kind': 'gen', 'seed': r.randrange(1 << 30),
              'max_ops': r.randint(1, 8 if tier == 'thorough' else 6)}
+    if r.random() < 0.3:
+      mdesc['bias'] = {'rnn': 25.0}     # stateful cell: per-sample statistics need a reset interpreter
   else:
     mdesc = {'kind': 'corpus', 'name': r.choice(C09_CORPUS)}
   spec, _ = modelgen.get_model(mdesc)
@@ -368,6 +370,8 @@ def execute(doc):
       aborted = True
       break
     rec.state(core.digest(durable) if durable is not None else None, pos)
+  if 'RNN' in spec.op_types():
+    rec.probe('model_with_variable_tensor')
   if rec.violations or aborted or durable is None or pos < len(data):
     if not rec.violations and not aborted and durable is not None and pos < len(data):
       rec.probe('trace_without_finish')
